@@ -1,7 +1,29 @@
-//! Correspondence harness of property C10 (stub).
-use mzkh::Ctx;
-
+//! probe
+use ff::{Field, PrimeField};
+use midnight_curves::{Fp, Fq, Fr as JFr};
 fn main() {
-    let ctx = Ctx::from_args("C10");
-    ctx.finish();
+    let a: Vec<String> = std::env::args().collect();
+    if a.len() > 1 && a[1] == "sumref" {
+        let v = vec![JFr::ONE, JFr::ONE];
+        let s: JFr = v.iter().sum();
+        println!("sum ok {:?}", s);
+        return;
+    }
+    if a.len() > 1 && a[1] == "fq6" {
+        use midnight_curves::bn256::{Fq2, Fq6};
+        let x = Fq6::new(Fq2::ZERO, Fq2::ZERO, Fq2::ONE);
+        println!("is_zero {:?} inv {:?}", bool::from(x.is_zero()), x.invert().is_some().unwrap_u8());
+        return;
+    }
+    if a.len() > 1 && a[1] == "fq2" {
+        use midnight_curves::bn256::{Fq2};
+        let mut r = <Fq2 as PrimeField>::Repr::default();
+        for b in r.as_mut().iter_mut() { *b = 0xff; }
+        let x = mzkh::catch(|| Fq2::from_repr(r).is_some().unwrap_u8());
+        println!("from_repr ff.. {:?}", x);
+        let x = mzkh::catch(|| Fq2::from_bytes(&[0xffu8; 64]).is_some().unwrap_u8());
+        println!("from_bytes ff.. {:?}", x);
+        return;
+    }
+    println!("{:?} {:?}", Fp::S, Fq::S);
 }
